@@ -21,6 +21,8 @@ type Clause struct {
 type LoopSpec struct {
 	Invariants []Clause
 	Decreases  *Clause
+	Modifies   []ModTarget
+	HasMod     bool
 }
 
 type PointAssert struct {
@@ -226,28 +228,11 @@ func (cs *ContractSet) parseFile(path string, defaultPkg string) error {
 			if cur.Modifies == nil {
 				cur.Modifies = []ModTarget{}
 			}
-			for _, part := range splitTop(it.text) {
-				part = strings.TrimSpace(part)
-				switch {
-				case part == "nothing" || part == "":
-				case part == "*":
-					cur.Modifies = append(cur.Modifies, ModTarget{Text: part, All: true})
-				case strings.HasPrefix(part, "key:"):
-					cur.Modifies = append(cur.Modifies, ModTarget{Text: part, Key: strings.TrimPrefix(part, "key:")})
-				default:
-					mt := ModTarget{Text: part}
-					if strings.HasSuffix(part, "[*]") {
-						mt.Elts = true
-						part = strings.TrimSuffix(part, "[*]")
-					}
-					e, err := ParseExpr(part)
-					if err != nil {
-						return fmt.Errorf("%s:%d: %v", path, it.line, err)
-					}
-					mt.E = e
-					cur.Modifies = append(cur.Modifies, mt)
-				}
+			mts, err := parseModTargets(it.text)
+			if err != nil {
+				return fmt.Errorf("%s:%d: %v", path, it.line, err)
 			}
+			cur.Modifies = append(cur.Modifies, mts...)
 		case "loop":
 			if cur == nil {
 				return fmt.Errorf("%s:%d: loop outside func", path, it.line)
@@ -264,6 +249,15 @@ func (cs *ContractSet) parseFile(path string, defaultPkg string) error {
 			if ls == nil {
 				ls = &LoopSpec{}
 				cur.Loops[k] = ls
+			}
+			if f[1] == "modifies" {
+				mts, err := parseModTargets(f[2])
+				if err != nil {
+					return fmt.Errorf("%s:%d: %v", path, it.line, err)
+				}
+				ls.HasMod = true
+				ls.Modifies = append(ls.Modifies, mts...)
+				continue
 			}
 			c, err := mkClause(f[2], it.line)
 			if err != nil {
@@ -370,6 +364,33 @@ func (cs *ContractSet) parseFile(path string, defaultPkg string) error {
 		}
 	}
 	return nil
+}
+
+func parseModTargets(text string) ([]ModTarget, error) {
+	var out []ModTarget
+	for _, part := range splitTop(text) {
+		part = strings.TrimSpace(part)
+		switch {
+		case part == "nothing" || part == "":
+		case part == "*":
+			out = append(out, ModTarget{Text: part, All: true})
+		case strings.HasPrefix(part, "key:"):
+			out = append(out, ModTarget{Text: part, Key: strings.TrimPrefix(part, "key:")})
+		default:
+			mt := ModTarget{Text: part}
+			if strings.HasSuffix(part, "[*]") {
+				mt.Elts = true
+				part = strings.TrimSuffix(part, "[*]")
+			}
+			e, err := ParseExpr(part)
+			if err != nil {
+				return nil, err
+			}
+			mt.E = e
+			out = append(out, mt)
+		}
+	}
+	return out, nil
 }
 
 // splitTop splits on commas that are not nested in brackets.
